@@ -5,6 +5,7 @@ package main
 import (
 	"encoding/binary"
 	"fmt"
+	"runtime"
 	"sync"
 	"sync/atomic"
 	"time"
@@ -126,7 +127,7 @@ func readVersion(r db.KeyValueReader, useIter bool) (uint64, string) {
 	return vs[0], ""
 }
 
-func concurrentRun(b Backend, r *lib.RNG, commits, readers int, res *lib.Result) {
+func concurrentRun(b Backend, r *lib.RNG, commits, readers int, maxWait time.Duration, res *lib.Result) {
 	store, clean, err := b.Open()
 	if err != nil {
 		res.Note("concurrency: open %s: %v", b.Name, err)
@@ -185,18 +186,35 @@ func concurrentRun(b Backend, r *lib.RNG, commits, readers int, res *lib.Result)
 					report(fmt.Sprintf("reader kind %d went back from version %d to %d", kind, last, v))
 				}
 				last = v
+				mu.Lock()
 				reads[i]++
+				mu.Unlock()
 			}
 		}(i)
 	}
+	totalReads := func() int {
+		mu.Lock()
+		defer mu.Unlock()
+		n := 0
+		for _, x := range reads {
+			n += x
+		}
+		return n
+	}
+	t0 := time.Now()
 	ok := lib.WithDeadline(10*time.Minute, func() {
-		for v := uint64(1); v <= uint64(commits); v++ {
+		// at least `commits` commits; keep committing (bounded in time) until the readers have
+		// completed 2*commits consistent views while the writer was running
+		for v := uint64(1); v <= uint64(commits) || (totalReads() < 2*commits && time.Since(t0) < maxWait); v++ {
 			started.Store(v)
 			if err := commit(store, r, v); err != nil {
 				report("writer: " + err.Error())
 				break
 			}
 			committed.Store(v)
+			if v%8 == 0 {
+				runtime.Gosched()
+			}
 		}
 	})
 	done.Store(true)
@@ -209,7 +227,7 @@ func concurrentRun(b Backend, r *lib.RNG, commits, readers int, res *lib.Result)
 		total += n
 	}
 	res.HitN("concurrent-reads:"+b.Name, total)
-	res.HitN("concurrent-commits:"+b.Name, commits)
+	res.HitN("concurrent-commits:"+b.Name, int(committed.Load()))
 	res.Case(fmt.Sprintf("concurrent/%s/%d", b.Name, commits), true)
 	if problem != "" {
 		res.Violate(lib.Violation{Sig: "concurrent-reader-inconsistent:" + b.Name, What: problem,
@@ -219,12 +237,12 @@ func concurrentRun(b Backend, r *lib.RNG, commits, readers int, res *lib.Result)
 
 func concurrencyPhase(f lib.Flags, r *lib.RNG, res *lib.Result) {
 	for _, b := range []Backend{memoryBackend(), pebble1Backend(false), pebble2Backend(true), pebble2Backend(false)} {
-		concurrentRun(b, r, 3000, 6, res)
+		concurrentRun(b, r, 3000, 6, 90*time.Second, res)
 	}
 }
 
 func concurrencySmoke(r *lib.RNG, res *lib.Result) {
 	for _, b := range []Backend{memoryBackend(), pebble2Backend(false)} {
-		concurrentRun(b, r, 150, 3, res)
+		concurrentRun(b, r, 200, 3, 4*time.Second, res)
 	}
 }
